@@ -1058,7 +1058,10 @@ Section Poisson2.
     intros Hc. cbv zeta. unfold integrate2.
     assert (Hd : forall q, In q pts -> dv2 st q = div_value2 Rops sc sm sh st q)
       by (intros q Hq; apply Hc; apply (in_all_ix2 sh); auto).
-    split; [apply divergence_sums_to_zero2; auto|]. split; [|split].
+    split; [apply divergence_sums_to_zero2; auto|].
+    destruct (shape_ok2 sh);
+      [|unfold out_iter, out_err, out_x; cbn [fst snd]; repeat split; intros; lia].
+    split; [|split].
     - intros Hit Herr.
       pose proof (cg_residual_certificate _ _ ix2_eqb_eq pts A (atimes2_linear sh) A2_ext itmax tol (dv2 st) x0 err0 Hit Herr) as H.
       cbv zeta in H.
@@ -1103,7 +1106,10 @@ Section Poisson3.
     intros Hc. cbv zeta. unfold integrate3.
     assert (Hd : forall q, In q pts -> dv3 st q = div_value3 Rops sc sm sh st q)
       by (intros q Hq; apply Hc; apply (in_all_ix3 sh); auto).
-    split; [apply divergence_sums_to_zero3; auto|]. split; [|split].
+    split; [apply divergence_sums_to_zero3; auto|].
+    destruct (shape_ok3 sh);
+      [|unfold out_iter, out_err, out_x; cbn [fst snd]; repeat split; intros; lia].
+    split; [|split].
     - intros Hit Herr.
       pose proof (cg_residual_certificate _ _ ix3_eqb_eq pts A (atimes3_linear sh) A3_ext itmax tol (dv3 st) x0 err0 Hit Herr) as H.
       cbv zeta in H.
@@ -1169,6 +1175,7 @@ Qed.
 Lemma cg_example2 : let o := integrate2 Rops sh22 1 0 b22 (fun _ => 0) 0 in
   out_iter _ o = 1%Z /\ out_err _ o = 0.
 Proof.
+  unfold integrate2. change (shape_ok2 sh22) with true. cbv iota.
   apply (cg_eigen_one_step _ _ ix2_eqb_eq (all_ix2 sh22) (atimes2 Rops sh22) (atimes2_linear sh22)
            (A2_ext sh22 ltac:(reflexivity) ltac:(reflexivity)) 0%nat 0 b22 (-1) 0 b22_eigen); [lra | apply b22_norm | lra].
 Qed.
@@ -1194,7 +1201,41 @@ Qed.
 Lemma cg_example3 : let o := integrate3 Rops sh222 1 0 b222 (fun _ => 0) 0 in
   out_iter _ o = 1%Z /\ out_err _ o = 0.
 Proof.
+  unfold integrate3. change (shape_ok3 sh222) with true. cbv iota.
   apply (cg_eigen_one_step _ _ ix3_eqb_eq (all_ix3 sh222) (atimes3 Rops sh222) (atimes3_linear sh222)
            (A3_ext sh222 ltac:(reflexivity) ltac:(reflexivity) ltac:(reflexivity)) 0%nat 0 b222 (- (1 / 2)) 0 b222_eigen);
     [lra | apply b222_norm | lra].
 Qed.
+
+(* ------------------------------------------------------------------ the grids that are refused *)
+Lemma shape_ok2_spec {T} (sh : shape2 (T:=T)) : (0 < nxg sh)%Z -> (0 < nyg sh)%Z ->
+  (shape_ok2 sh = false <-> (px sh = true /\ nxg sh = 1%Z) \/ (py sh = true /\ nyg sh = 1%Z)).
+Proof.
+  intros Hx Hy. unfold shape_ok2, npmf. rewrite andb_false_iff, !Z.leb_gt.
+  destruct (px sh), (py sh); split; intros H; try lia;
+    try (destruct H as [H|H]; [left | right]; try (split; [reflexivity|]); lia);
+    try (destruct H as [[H1 H2]|[H1 H2]]; try discriminate; lia).
+Qed.
+
+Lemma shape_ok3_spec {T} (sh : shape3 (T:=T)) : (0 < mxg sh)%Z -> (0 < myg sh)%Z -> (0 < mzg sh)%Z ->
+  (shape_ok3 sh = false <->
+   (qx sh = true /\ mxg sh = 1%Z) \/ (qy sh = true /\ myg sh = 1%Z) \/ (qz sh = true /\ mzg sh = 1%Z)).
+Proof.
+  intros Hx Hy Hz. unfold shape_ok3, npmf. rewrite !andb_false_iff, !Z.leb_gt.
+  destruct (qx sh), (qy sh), (qz sh); split; intros H;
+    repeat match goal with
+           | H : _ \/ _ |- _ => destruct H
+           | H : _ /\ _ |- _ => destruct H
+           end; try discriminate; try lia;
+    try (left; split; [reflexivity | lia]); try (right; left; split; [reflexivity | lia]);
+    try (right; right; split; [reflexivity | lia]);
+    try (left; left; lia); try (left; right; lia); try (right; lia).
+Qed.
+
+(* a refused grid: integrate() makes no iteration and leaves the surface and the caller's error untouched *)
+Lemma integrate2_refused (sh : shape2 (T:=R)) itmax tol D x0 err0 : shape_ok2 sh = false ->
+  let o := integrate2 Rops sh itmax tol D x0 err0 in out_iter _ o = 0%Z /\ out_x _ o = x0 /\ out_err _ o = err0.
+Proof. intros H. cbv zeta. unfold integrate2. rewrite H. repeat split. Qed.
+Lemma integrate3_refused (sh : shape3 (T:=R)) itmax tol D x0 err0 : shape_ok3 sh = false ->
+  let o := integrate3 Rops sh itmax tol D x0 err0 in out_iter _ o = 0%Z /\ out_x _ o = x0 /\ out_err _ o = err0.
+Proof. intros H. cbv zeta. unfold integrate3. rewrite H. repeat split. Qed.
